@@ -1603,3 +1603,72 @@ func (w *World) stableFlag(cond ssa.Value) (string, bool) {
 	}
 	return "", false
 }
+
+// readOnlyFn: fn only computes a value — no store outside its own locals, no map
+// update, no channel / goroutine / defer / panic, and every call is to another
+// read-only module function, a side-effect-free library routine, a getter of a
+// dependency (Get*/Is*/Has*/To*/New*/Len), or a 256-bit operation on a fresh value.
+func (w *World) readOnlyFn(fn *ssa.Function, d int) bool {
+	if fn == nil || fn.Blocks == nil || !w.InModule(fn) || d > 3 {
+		return false
+	}
+	if w.roMemo == nil {
+		w.roMemo = map[*ssa.Function]bool{}
+	}
+	if v, ok := w.roMemo[fn]; ok {
+		return v
+	}
+	w.roMemo[fn] = false
+	// dependency routines are taken to be read-only unless their name says otherwise
+	getter := func(n string) bool {
+		for _, p := range []string{"Set", "Put", "Write", "Delete", "Del", "Remove", "Add", "Sub", "Save", "Commit", "Close", "Store", "Update", "Reset", "Insert", "Append", "Push", "Pop", "Send", "Revert", "Finalise", "Finish", "Prepare", "Apply", "Exec", "Run", "Call", "Create", "Lock", "Unlock", "Sort"} {
+			if strings.HasPrefix(n, p) {
+				return false
+			}
+		}
+		return true
+	}
+	ok := true
+	for _, b := range fn.Blocks {
+		for _, in := range b.Instrs {
+			switch x := in.(type) {
+			case *ssa.Store:
+				if !baseFresh(x.Addr) {
+					if _, local := x.Addr.(*ssa.Alloc); !local {
+						ok = false
+					}
+				}
+			case *ssa.MapUpdate, *ssa.Send, *ssa.Go, *ssa.Defer, *ssa.Panic:
+				ok = false
+			case ssa.CallInstruction:
+				c := x.Common()
+				if _, isB := c.Value.(*ssa.Builtin); isB {
+					continue
+				}
+				if c.IsInvoke() {
+					if !getter(c.Method.Name()) {
+						ok = false
+					}
+					continue
+				}
+				cal := c.StaticCallee()
+				switch {
+				case cal == nil:
+					ok = false
+				case w.InModule(cal):
+					if !w.readOnlyFn(cal, d+1) {
+						ok = false
+					}
+				case pureLibrary(cal) || getter(cal.Name()):
+				default:
+					if rv, mut := mutatesZ(c); mut && rv != nil && baseFresh(rv) {
+						continue
+					}
+					ok = false
+				}
+			}
+		}
+	}
+	w.roMemo[fn] = ok
+	return ok
+}
